@@ -1,5 +1,6 @@
 import PytezosModel.Michelson.Tickets
 import PytezosModel.Proofs.C20Main
+import PytezosModel.Proofs.C20TyMain
 /-! C20 — tickets are never forged, duplicated, zeroed or merged incorrectly.
 
 Full statement (properties.jsonl): in every execution the total ticket amount per (ticketer, contents) changes only
@@ -8,8 +9,9 @@ parts not summing to the amount return None), JOIN_TICKETS succeeds exactly when
 tickets are never duplicated.
 
 The mini-interpreter `Impl.Tickets.run` mirrors how pytezos executes TICKET / READ_TICKET / SPLIT_TICKET / JOIN_TICKETS /
-PAIR / UNPAIR / CAR / CDR / SOME / NONE / IF_NONE / CONS / NIL / ITER / MAP / DUP / DUP n / SWAP / DIG / DUG / DROP / DIP /
-DIP n / PUSH / EMPTY_MAP / EMPTY_BIG_MAP / GET / GET_AND_UPDATE / UPDATE / FAILWITH and sequences, including every
+PAIR / UNPAIR / CAR / CDR / SOME / NONE / IF_NONE / LEFT / RIGHT / IF_LEFT / CONS / NIL / ITER / MAP / DUP / DUP n / SWAP /
+DIG / DUG / DROP / DIP / DIP n / PUSH (incl. set and map literals) / EMPTY_MAP / EMPTY_BIG_MAP / EMPTY_SET / GET /
+GET_AND_UPDATE / UPDATE (maps, big_maps, sets) / MEM / LAMBDA / EXEC / APPLY / FAILWITH and sequences, including every
 dynamic check (`is_duplicable` on the runtime class, the `dup` argument of `get`, `is_pushable`, `is_comparable`,
 `assert_type_equal`); `cfg` is the shape of the code under test as read by the translator on this run.
 
@@ -23,13 +25,24 @@ a ticket in a `map nat nat` and DUP it (`conservation_needs_typed_stores` below 
 evaluation).  The Michelson type checker rejects such programs.  Proved instead: `conservation_partial`, under the
 decidable run-time guard `s'.typedStores = true` (a ghost flag computed by the interpreter: every executed UPDATE /
 GET_AND_UPDATE stored a value of the map's declared value type).  Nothing else is assumed about typing: the dynamic
-duplicability / pushability checks are what carries the proof. -/
+duplicability / pushability checks are what carries the proof.
+
+`conservation` (below) replaces the ghost guard by a STATIC hypothesis: the program passes the type checker of
+`Michelson/TicketsTyping.lean` (`wellTyped`: the Michelson typing rules of the fragment) against the classes of a well
+typed start stack.  Type preservation (`Proofs/C20Ty*.lean`, induction on the evaluation) shows that such a run never
+stores a value that has not the map's declared value type, so the flag is still true at the end and the dynamic-check
+proof applies; no ghost field occurs in the statement.  The checker accepts MAP only with a body that gives back the
+element type it received: pytezos returns the source collection unchanged when it is empty (open finding of C01 / C02),
+so after a type-changing MAP the class of the result is not the static type (`typed_map_rule_is_restricted`).  The
+checker does not cover LAMBDA / EXEC / APPLY (it rejects them: typing a lambda VALUE needs the checker inside the value
+typing); programs with lambdas are covered by `conservation_partial`. -/
 namespace C20
 open Impl.Tickets
 
 /-- what the translator read from the source: "ticket" makes a type non-duplicable / non-pushable / non-comparable,
 split rejects a zero part, split and join keep the ticket's class, `BigMapType.get` honours `dup`, DUP / DUP n check the
-duplicability of a big_map operand, and the mirrored bodies are the recognised ones -/
+duplicability of a big_map operand, and the mirrored bodies (incl. `BigMapType.update` as repaired for C15) are the
+recognised ones -/
 theorem source_shape :
     Generated.C20.nonDuplicablePrims = some ["ticket"]
       ∧ (Generated.C20.nonPushablePrims.getD []).contains "ticket" = true
@@ -37,7 +50,8 @@ theorem source_shape :
       ∧ Generated.C20.splitRejectsZero = some true ∧ Generated.C20.splitKeepsClass = some true
       ∧ Generated.C20.joinKeepsClass = some true ∧ Generated.C20.bigMapGetHonoursDup = some true
       ∧ Generated.C20.dupChecksBigMap = some true ∧ Generated.C20.duplicateAsserts = true
-      ∧ Generated.C20.mapBodiesRecognised = true ∧ Generated.C20.ticketInstrsRecognised = true := by decide
+      ∧ Generated.C20.mapBodiesRecognised = true ∧ Generated.C20.bigMapUpdateRecognised = true
+      ∧ Generated.C20.ticketInstrsRecognised = true := by decide
 
 theorem cfg_ok : CfgOk cfg := ⟨by decide, by decide, by decide, by decide⟩
 
@@ -73,6 +87,51 @@ theorem consistency_preserved (fuel : Nat) (prog : List Instr) (s s' : State) (h
 theorem typed_stores_monotone (fuel : Nat) (prog : List Instr) (s s' : State) (h : run cfg fuel prog s = .ok s')
     (ht : s'.typedStores = true) : s.typedStores = true :=
   (run_good fuel prog s s' h).typed_mono ht
+
+
+/-! ### the static guard: well-typed programs -/
+
+theorem cfg_ok2 : CfgOk2 cfg := ⟨by decide, by decide⟩
+
+/-- TYPE PRESERVATION of the mirror for checked programs: a successful run ends with the stack types the checker computed
+(in particular the checker did not predict "always fails"), every value deeply well typed, nothing protected, and no
+ill-typed store happened -/
+theorem type_preservation (fuel : Nat) (prog : List Instr) (items : List Val) (self : String) (s' : State)
+    (hw : wellTyped cfg prog items = true) (h : run cfg fuel prog (State.start items self) = .ok s') :
+    ∃ Γ', tySeq cfg prog (items.map Val.typeOf) = some (some Γ') ∧ s'.items.map Val.typeOf = Γ'
+      ∧ (∀ v ∈ s'.items, v.wt = true) ∧ s'.prot = 0 ∧ s'.typedStores = true := by
+  simp only [wellTyped, Bool.and_eq_true] at hw
+  obtain ⟨hs, hty⟩ := start_typed items self hw.1
+  cases hr : tySeq cfg prog (items.map Val.typeOf) with
+  | none => simp [hr] at hw
+  | some r =>
+    unfold run at h
+    split at h
+    · obtain ⟨Γ', act', rfl, ⟨t1, t2, t3⟩, ⟨a1, a2⟩⟩ := execSeq_typed cfg_ok2 fuel prog [] items _ s' _ r hr hs hty h
+      simp only [List.nil_append] at t2
+      exact ⟨Γ', rfl, by rw [t2]; exact a2, by rw [t2]; exact a1, t3, t1⟩
+    · cases h
+
+/-- CONSERVATION, statically guarded: for EVERY program accepted by the type checker, every fuel, every well typed start
+stack and every self address — tickets only come from TICKET (the mint log of the run); everything else can at most
+destroy them.  No ghost flag: well-typedness implies that every store has the declared value type. -/
+theorem conservation (fuel : Nat) (prog : List Instr) (items : List Val) (self : String) (s' : State)
+    (hw : wellTyped cfg prog items = true) (h : run cfg fuel prog (State.start items self) = .ok s') :
+    ∀ k, s'.sum k ≤ ticketSumList k items + mintedSum k s'.minted := by
+  obtain ⟨_, _, _, _, _, ht⟩ := type_preservation fuel prog items self s' hw h
+  simp only [wellTyped, Bool.and_eq_true] at hw
+  have hc : LC (State.start items self).items := (start_typed items self hw.1).2.lc
+  intro k
+  have := conservation_partial fuel prog (State.start items self) s' hc h ht k
+  simpa [State.start, State.sum, mintedSum] using this
+
+/-- NO ZERO TICKET, statically guarded -/
+theorem no_zero_ticket_typed (fuel : Nat) (prog : List Instr) (items : List Val) (self : String) (s' : State)
+    (hw : wellTyped cfg prog items = true) (hz : LN items) (h : run cfg fuel prog (State.start items self) = .ok s') :
+    LN s'.items := by
+  obtain ⟨_, _, _, _, _, ht⟩ := type_preservation fuel prog items self s' hw h
+  simp only [wellTyped, Bool.and_eq_true] at hw
+  exact no_zero_ticket fuel prog (State.start items self) s' (start_typed items self hw.1).2.lc hz h ht
 
 /-- TICKET with amount 0 gives None (and mints nothing) -/
 theorem ticket_zero_none (f : Nat) (s s1 s' : State) (item : Val)
@@ -251,11 +310,95 @@ example : outTickets (run cfg 200 (mint 5 "a" ++
        .none (.ticket .string), .push .nat (.atom (.nat 1)), .getAndUpdate]) init)
     = some (true, [("KT1", .atom (.str "a"), 5)]) := by decide +kernel
 
+-- or-types: a ticket on the right of an `or` comes back through IF_LEFT; DUP of the sum is refused
+example : outTickets (run cfg 200 (mint 5 "a" ++ [.right .nat, .ifLeft [.failwith] []]) init)
+    = some (true, [("KT1", .atom (.str "a"), 5)]) := by decide +kernel
+example : outTickets (run cfg 200 (mint 5 "a" ++ [.right .nat, .dup]) init) = none := by decide +kernel
+example : outTickets (run cfg 200 [.push .nat (.atom (.nat 1)), .left (.ticket .string), .dup] init) = none := by decide +kernel
+-- option (pair nat (ticket string)): the ticket sits at the second type-argument position; DUP refused, CDR gives it back
+example : outTickets (run cfg 200 (mint 5 "a" ++ [.push .nat (.atom (.nat 7)), .pair, .some, .dup]) init) = none := by decide +kernel
+example : outTickets (run cfg 200 (mint 5 "a" ++ [.push .nat (.atom (.nat 7)), .pair, .some, .ifNone [.failwith] [], .cdr]) init)
+    = some (true, [("KT1", .atom (.str "a"), 5)]) := by decide +kernel
+-- lambdas: identity on a ticket; a lambda that tries to copy its argument fails; a lambda may mint; code is duplicable
+example : outTickets (run cfg 200 (mint 5 "a" ++ [.lambda (.ticket .string) (.ticket .string) [], .dup, .drop, .swap, .exec]) init)
+    = some (true, [("KT1", .atom (.str "a"), 5)]) := by decide +kernel
+example : outTickets (run cfg 200 (mint 5 "a" ++
+      [.lambda (.ticket .string) (.pair (.ticket .string) (.ticket .string)) [.dup, .pair], .swap, .exec]) init) = none := by
+  decide +kernel
+example : outTickets (run cfg 200
+      [.lambda .nat (.option (.ticket .string)) [.push .string (.atom (.str "a")), .ticket], .push .nat (.atom (.nat 4)), .exec] init)
+    = some (true, [("KT1", .atom (.str "a"), 4)]) := by decide +kernel
+-- APPLY on a ticket captures it into code for good: the applied lambda can be copied, but running it is refused (PUSH of a
+-- ticket type), so the 5 never come back — let alone twice
+example : outTickets (run cfg 200 (mint 5 "a" ++
+      [.lambda (.pair (.ticket .string) .nat) (.ticket .string) [.car], .swap, .apply, .dup]) init) = some (true, []) := by decide +kernel
+example : outTickets (run cfg 200 (mint 5 "a" ++
+      [.lambda (.pair (.ticket .string) .nat) (.ticket .string) [.car], .swap, .apply, .push .nat (.atom (.nat 1)), .exec]) init) = none := by
+  decide +kernel
+-- sets and map literals live next to tickets: a pair (map literal, ticket) is not duplicable, the literal alone is
+example : outTickets (run cfg 200 (mint 5 "a" ++
+      [.push (.map .nat .string) (.map false .nat .string [.nat 1] [.atom (.str "x")] []), .dup, .drop, .pair, .dup]) init) = none := by
+  decide +kernel
+example : outTickets (run cfg 200
+      [.push (.map .nat .string) (.map false .nat .string [.nat 2, .nat 1] [.atom (.str "x"), .atom (.str "y")] [])] init) = none := by
+  decide +kernel
+example : outTickets (run cfg 200 (mint 5 "a" ++
+      [.emptySet .nat, .push .bool (.atom (.bool true)), .push .nat (.atom (.nat 3)), .update, .dup, .push .nat (.atom (.nat 3)), .mem]) init)
+    = some (true, [("KT1", .atom (.str "a"), 5)]) := by decide +kernel
+
 /-- why the guard is there: this ILL-TYPED program (a ticket stored into a `map nat nat`) runs to the end in the mirror —
 as it does in pytezos — with TWO tickets of 5 although 5 were minted; the ghost flag is false at the end -/
 theorem conservation_needs_typed_stores :
     outTickets (run cfg 200 (mint 5 "a" ++
       [.some, .emptyMap .nat .nat, .swap, .push .nat (.atom (.nat 1)), .update, .dup]) init)
     = some (false, [("KT1", .atom (.str "a"), 5), ("KT1", .atom (.str "a"), 5)]) := by decide +kernel
+
+/-! ### non-vacuity of the static guard -/
+
+private def fail : List Instr := [.push .string (.atom (.str "none")), .failwith]
+/-- `mint` with a well typed failing branch (FAILWITH needs an operand) -/
+private def mintT (n : Nat) (c : String) : List Instr :=
+  [.push .nat (.atom (.nat n)), .push .string (.atom (.str c)), .ticket, .ifNone fail []]
+
+
+-- the split / store-in-a-list / join-back program is accepted by the checker (so `conservation` applies to it) …
+example : wellTyped cfg (mintT 5 "a" ++
+      [.push (.pair .nat .nat) (.pair (.atom (.nat 2)) (.atom (.nat 3))), .swap, .splitTicket, .ifNone fail [], .unpair,
+       .nil (.ticket .string), .swap, .cons, .iter [.pair, .joinTickets, .ifNone fail []]]) [] = true := by decide +kernel
+-- … with the final stack type `[ticket string]`
+example : tySeq cfg (mintT 5 "a" ++
+      [.push (.pair .nat .nat) (.pair (.atom (.nat 2)) (.atom (.nat 3))), .swap, .splitTicket, .ifNone fail [], .unpair,
+       .nil (.ticket .string), .swap, .cons, .iter [.pair, .joinTickets, .ifNone fail []]]) []
+    = some (some [.ticket .string]) := by decide +kernel
+-- tickets moved through a big_map with GET_AND_UPDATE, and a MAP over a list of tickets: accepted
+example : wellTyped cfg (mintT 5 "a" ++
+      [.some, .emptyBigMap .nat (.ticket .string), .swap, .push .nat (.atom (.nat 1)), .update,
+       .none (.ticket .string), .push .nat (.atom (.nat 1)), .getAndUpdate]) [] = true := by decide +kernel
+example : wellTyped cfg (mintT 5 "a" ++ [.nil (.ticket .string), .swap, .cons, .map [.readTicket, .drop]]) [] = true := by
+  decide +kernel
+-- a start stack that already holds a ticket
+example : wellTyped cfg [.readTicket, .drop] [.ticket (.ticket .string) "KT1" (.atom (.str "a")) 7] = true := by decide +kernel
+-- or-types, sets and literals are covered by the checker
+example : wellTyped cfg (mintT 5 "a" ++ [.right .nat, .ifLeft fail [], .readTicket, .drop,
+      .emptySet .nat, .push .bool (.atom (.bool true)), .push .nat (.atom (.nat 3)), .update, .push .nat (.atom (.nat 3)), .mem]) [] = true := by
+  decide +kernel
+example : wellTyped cfg (mintT 5 "a" ++ [.right .nat, .dup]) [] = false := by decide +kernel
+-- rejected: DUP of a ticket, DUP of a big_map of tickets, GET on a map of tickets are fine for the checker's map rules
+-- but DUP is refused statically; the ill-typed store of `conservation_needs_typed_stores` is refused as well
+example : wellTyped cfg (mintT 5 "a" ++ [.dup]) [] = false := by decide +kernel
+example : wellTyped cfg (mintT 5 "a" ++
+      [.some, .emptyMap .nat .nat, .swap, .push .nat (.atom (.nat 1)), .update, .dup]) [] = false := by decide +kernel
+
+/-- why the checker restricts MAP to bodies that give back the element type: this program is well typed for Michelson
+(`MAP { SOME }` turns the `list nat` into a `list (option nat)`, which is then stored in a `map nat (list (option nat))`),
+but pytezos — and the mirror — return the EMPTY source list unchanged, of class `list nat`; the store is ill typed by
+class and the ghost flag is false at the end.  The checker rejects the program. -/
+theorem typed_map_rule_is_restricted :
+    outTickets (run cfg 200
+      [.nil .nat, .map [.some], .some, .emptyMap .nat (.list (.option .nat)), .swap, .push .nat (.atom (.nat 1)), .update] init)
+      = some (false, [])
+    ∧ wellTyped cfg
+      [.nil .nat, .map [.some], .some, .emptyMap .nat (.list (.option .nat)), .swap, .push .nat (.atom (.nat 1)), .update] [] = false := by
+  constructor <;> decide +kernel
 
 end C20
